@@ -375,6 +375,8 @@ class Executor:
         if ref.get_id() in self.fresh_ids:
             return
         alts = [ref >= self.entry_alloc]
+        if name.startswith('A|'):
+            alts.append(ref == 0)   # the nil slice has no elements: nothing is written
         for (n, r) in self.modset:
             if n == name or n == '*':
                 if r is None:
@@ -1141,6 +1143,11 @@ class Executor:
                         out.add('H|bigint||Int')
                     elif f == 'innermapsof':
                         out |= self.map_heaps('map[string]*math/big.Int')
+                    elif f == 'innermaps':
+                        bt = static_type(ast[2][0])
+                        if bt is None:
+                            return None
+                        out |= self.map_heaps(m.types[m.under(bt)]['elem'])
                     elif f in ('val', 'rat'):
                         out.add('H|bigint||Int' if f == 'val' else 'H|bigrat||Real')
                         bt = static_type(ast[2][0])
